@@ -47,6 +47,8 @@ pub struct PoolEntry {
 	pub val: String,
 	/// decode from a slice: (answer line, remaining length on success)
 	pub dec: fn(&[u8]) -> (String, Option<usize>),
+	/// the same through an `IoReader` whose reader is interrupted between deliveries
+	pub dec_io: fn(&[u8]) -> (String, Option<usize>),
 }
 
 impl Ctx {
